@@ -25,15 +25,16 @@ import (
 )
 
 type migCase struct {
-	Layout      string `json:"layout"`
-	Version     string `json:"version"`
-	LintUse     string `json:"lintUse"`
-	EmptyReq    bool   `json:"emptyReq"`
-	EmptyResp   bool   `json:"emptyResp"`
-	IgnoreFile  bool   `json:"ignoreFile"`
-	BreakingUse string `json:"breakingUse"`
-	Second      string `json:"second"`
+	Layout      string   `json:"layout"`
+	Version     string   `json:"version"`
+	LintUse     string   `json:"lintUse"`
+	EmptyReq    bool     `json:"emptyReq"`
+	EmptyResp   bool     `json:"emptyResp"`
+	IgnoreFile  bool     `json:"ignoreFile"`
+	BreakingUse string   `json:"breakingUse"`
+	Second      string   `json:"second"`
 	Deps        string   `json:"deps"`
+	Build       string   `json:"build"`
 	Pins        []string `json:"pins"`
 	Declared    []string `json:"declared"`
 }
@@ -169,6 +170,20 @@ func pins(ctx context.Context, dir string) (map[string]string, error) {
 	return out, nil
 }
 
+// buildSection is the build section of the first module: an excluded directory (with a proto file in it that must
+// stay out of the module) and, for v1beta1, an explicit root.
+func buildSection(c migCase) string {
+	switch c.Build {
+	case "excludes":
+		return "build:\n  excludes:\n    - acme/internal\n"
+	case "roots":
+		return "build:\n  roots:\n    - .\n"
+	case "roots+excludes":
+		return "build:\n  roots:\n    - .\n  excludes:\n    - acme/internal\n"
+	}
+	return ""
+}
+
 func materialize(root string, c migCase) error {
 	if err := os.RemoveAll(root); err != nil {
 		return err
@@ -186,7 +201,13 @@ func materialize(root string, c migCase) error {
 				return err
 			}
 		}
-		return write("buf.yaml", v1BufYAML(c.Version, c.LintUse, c.EmptyReq, c.EmptyResp, c.IgnoreFile, c.BreakingUse, "acme"))
+		if c.Build == "excludes" || c.Build == "roots+excludes" {
+			// (the file does not even compile together with the others: it only stays harmless while it is excluded)
+			if err := write("acme/internal/scratch.proto", "syntax = \"proto3\";\npackage acme.v1;\nmessage GetRequest { string scratch = 1; }\n"); err != nil {
+				return err
+			}
+		}
+		return write("buf.yaml", v1BufYAML(c.Version, c.LintUse, c.EmptyReq, c.EmptyResp, c.IgnoreFile, c.BreakingUse, "acme")+buildSection(c))
 	}
 	if err := write("buf.work.yaml", "version: v1\ndirectories:\n  - m1\n  - m2\n"); err != nil {
 		return err
@@ -196,7 +217,12 @@ func materialize(root string, c migCase) error {
 			return err
 		}
 	}
-	if err := write("m1/buf.yaml", v1BufYAML(c.Version, c.LintUse, c.EmptyReq, c.EmptyResp, c.IgnoreFile, c.BreakingUse, "acme")); err != nil {
+	if c.Build == "excludes" || c.Build == "roots+excludes" {
+		if err := write("m1/acme/internal/scratch.proto", "syntax = \"proto3\";\npackage acme.v1;\nmessage GetRequest { string scratch = 1; }\n"); err != nil {
+			return err
+		}
+	}
+	if err := write("m1/buf.yaml", v1BufYAML(c.Version, c.LintUse, c.EmptyReq, c.EmptyResp, c.IgnoreFile, c.BreakingUse, "acme")+buildSection(c)); err != nil {
 		return err
 	}
 	for p, s := range moduleSource("other") {
